@@ -405,7 +405,9 @@ func (g *Gen) emitOp(l string) string {
 		if g.inScenario && !hooksFocus && !faultsFocus {
 			pHook, pFault = 0, 0 // do not derail a scenario by a stray injection
 		}
-		if hooks := hooksOf(kind); len(hooks) > 0 && g.chance(pHook) {
+		// never arm two failhooks for one op: the harness keeps a set of armed failhooks, the
+		// model only the last one (PROTOCOL does not say), so such streams would not be comparable
+		if hooks := hooksOf(kind); len(hooks) > 0 && len(g.e.pendHooks) == 0 && g.chance(pHook) {
 			if kind != "block" || g.blockWillAct(s, l) || g.chance(0.2) {
 				g.emit(fmt.Sprintf("failhook %s %d", hooks[g.intn(len(hooks))], g.intn(3)))
 			}
